@@ -954,6 +954,12 @@ pub fn tx_from_slate_v4(slate: &SlateV4) -> Option<Transaction> {
 	let secp = secp.lock();
 	let mut calc_slate = Slate::blank(2, false);
 	calc_slate.fee_fields = slate.fee;
+	// the kernel (and with it the message the signatures were made over) is determined by the
+	// slate's kernel features and their arguments
+	calc_slate.kernel_features = slate.feat;
+	calc_slate.kernel_features_args = slate.feat_args.as_ref().map(|a| KernelFeaturesArgs {
+		lock_height: a.lock_hgt,
+	});
 	for d in slate.sigs.iter() {
 		calc_slate.participant_data.push(ParticipantData {
 			public_blind_excess: d.xs,
@@ -970,16 +976,11 @@ pub fn tx_from_slate_v4(slate: &SlateV4) -> Option<Transaction> {
 		Err(_) => Signature::from_raw_data(&[0; 64]).unwrap(),
 	};
 	let kernel = TxKernel {
-		features: match slate.feat {
-			0 => KernelFeatures::Plain { fee: slate.fee },
-			1 => KernelFeatures::HeightLocked {
-				fee: slate.fee,
-				lock_height: match slate.feat_args.as_ref() {
-					Some(a) => a.lock_hgt,
-					None => 0,
-				},
-			},
-			_ => KernelFeatures::Plain { fee: slate.fee },
+		// (2 = height locked, 3 = no recent duplicate, as in `Slate::kernel_features`; anything
+		// the slate cannot express as a kernel falls back to a plain one, as before)
+		features: match calc_slate.kernel_features() {
+			Ok(f) => f,
+			Err(_) => KernelFeatures::Plain { fee: slate.fee },
 		},
 		excess,
 		excess_sig,
